@@ -154,6 +154,8 @@ type c04Env struct {
 	dnsNew    bool // dns.New is usable as the production constructor
 	bulk      map[c04Atom]c04BulkRef
 	sharedDat *routing.DatReaderOptimizer
+	// cache key -> the spelling of the reference under which the long-lived optimizer was first asked for it
+	sharedFirst map[string]string
 }
 
 // What a production call site looks like, read from the source of the repo under test (go/ast):
@@ -1616,7 +1618,11 @@ func (e *c04Env) runProgram(o *c04Out, r *VRand, kind, tag string, rules []*c04R
 	// geodata references → table entries (content from the real DatReaderOptimizer)
 	var geoToks []string
 	seenGeo := map[string]bool{}
-	for _, rule := range rules {
+	geoRefs := 0
+	// fault position: which rules hold a reference whose load fails (the whole list must then be refused, wherever
+	// the failing reference sits and whatever the other workers are doing meanwhile), which hold one that loads
+	failRule, okRule := map[int]bool{}, map[int]bool{}
+	for ri, rule := range rules {
 		for _, f := range rule.AndFunctions {
 			fname := f.Name
 			if kind == "traffic" {
@@ -1629,10 +1635,19 @@ func (e *c04Env) runProgram(o *c04Out, r *VRand, kind, tag string, rules []*c04R
 			}
 			for _, p := range f.Params {
 				gk, file, code, isRef := c04GeoRef(fname, p)
+				if p.Key == "ext" && (!isRef || gk == "bad") {
+					failRule[ri] = true
+				}
 				if !isRef || gk == "bad" {
 					continue
 				}
+				if _, lok := c04ExpectedExpansion(gk, file, code); lok {
+					okRule[ri] = true
+				} else {
+					failRule[ri] = true
+				}
 				id := gk + " " + c04Tok(file) + " " + c04Tok(code)
+				geoRefs++
 				if seenGeo[id] {
 					continue
 				}
@@ -1717,14 +1732,90 @@ func (e *c04Env) runProgram(o *c04Out, r *VRand, kind, tag string, rules []*c04R
 	op = strings.Join(strings.Fields(op), " ")
 	d.Text = c04Text(written)
 	o.emit(op, "opt="+opt+" split="+split+" fb="+c04Dec(fbLabel, false), d)
-	// a DatReaderOptimizer that has already served other rule lists must normalise like a fresh one
-	if tag == "gen" && r.Chance(0.25) && stage != "opt" {
-		same := "differs"
-		if got, err := routing.ApplyRulesOptimizers(rules, e.sharedChain(kind)...); err == nil && c04SerProg(got) == opt {
-			same = "same"
+	// A DatReaderOptimizer that has already served other rule lists (its cache filled by that HISTORY): the program as
+	// the long-lived real instance normalises it, against the model optimizer that carries its own cache
+	// (`datOptC`) through the same history.  Both must equal what a fresh optimizer produces.
+	if (tag == "gen" && r.Chance(0.25)) || tag == "fault-history" {
+		shared := "err"
+		if got, err := routing.ApplyRulesOptimizers(rules, e.sharedChain(kind)...); err == nil {
+			shared = c04SerProg(got)
+		} else {
+			st.Inc("sharedcache.programs_ending_in_an_error")
 		}
-		o.emit(fmt.Sprintf("sharedcache %d", st.C["sharedcache.checks"]), "shared="+same, c04Descr{Kind: "shared", Backend: kind})
+		if shared != opt && tag == "fault-history" {
+			st.Inc("sharedcache.fault_history.stale_entry_served_after_the_file_is_gone")
+		} else if shared != opt {
+			st.Inc("sharedcache.result_DIFFERS_from_fresh_optimizer")
+		}
+		o.emit(fmt.Sprintf("sharedcache %d", st.C["sharedcache.checks"]), "opt="+shared+" split=-", c04Descr{Kind: "shared", Backend: kind, Text: c04Text(written), Fb: fb})
 		st.Inc("sharedcache.checks")
+		// which cache keys this history has seen under which spelling (code in another letter case, file with
+		// and without .dat): a hit on an entry stored under a different spelling is the interesting case
+		for id := range seenGeo {
+			f := strings.Fields(id)
+			key := f[0] + " " + strings.TrimSuffix(f[1], ".dat") + ".dat:" + strings.ToLower(f[2])
+			if first, ok := e.sharedFirst[key]; !ok {
+				e.sharedFirst[key] = id // (stored only if the load succeeds; an approximation good enough for a counter)
+			} else if first == id {
+				st.Inc("sharedcache.hit_on_entry_stored_under_the_same_spelling")
+			} else {
+				st.Inc("sharedcache.hit_on_entry_stored_under_another_spelling")
+			}
+		}
+	}
+	if len(failRule) > 0 && tag == "gen" {
+		first, last, later := len(rules), -1, false
+		for i := range failRule {
+			if i < first {
+				first = i
+			}
+			if i > last {
+				last = i
+			}
+		}
+		for i := range okRule {
+			if i > first {
+				later = true
+			}
+		}
+		switch {
+		case len(rules) == 1:
+			st.Inc("fault.load_error_in_the_only_rule")
+		case first == 0:
+			st.Inc("fault.load_error_in_the_first_rule")
+		case first == len(rules)-1:
+			st.Inc("fault.load_error_in_the_last_rule")
+		default:
+			st.Inc("fault.load_error_in_a_middle_rule")
+		}
+		if later {
+			st.Inc("fault.load_error_with_loadable_references_in_later_rules")
+		}
+		if opt != "err" {
+			st.Inc("fault.load_error_but_real_pipeline_SUCCEEDED")
+		}
+	}
+	// within ONE rule list (production: one fresh optimizer per list, its workers sharing the cache): references
+	// with the same cache key, spelled alike or differently
+	{
+		spell := map[string]map[string]bool{}
+		for id := range seenGeo {
+			f := strings.Fields(id)
+			key := f[0] + " " + strings.TrimSuffix(f[1], ".dat") + ".dat:" + strings.ToLower(f[2])
+			if spell[key] == nil {
+				spell[key] = map[string]bool{}
+			}
+			spell[key][id] = true
+		}
+		for _, v := range spell {
+			if len(v) > 1 {
+				st.Inc("gen.one_list_same_cache_key_in_two_spellings")
+				break
+			}
+		}
+		if geoRefs > len(seenGeo) {
+			st.Inc("gen.one_list_same_reference_twice")
+		}
 	}
 	st.Inc(kind + ".programs")
 	if tag == "gen" {
@@ -1908,15 +1999,16 @@ func TestVerifC04(t *testing.T) {
 	log := logrus.New()
 	log.SetLevel(logrus.PanicLevel)
 	env := &c04Env{
-		log:      log,
-		lf:       assets.NewLocationFinder([]string{geoDir}),
-		traffic:  map[string]uint8{"direct": uint8(consts.OutboundDirect), "block": uint8(consts.OutboundBlock), "proxy": 2, "other": 3, "us_proxy": 4, "my_group": 5, "tunnel": 6, "sg": 7, "mustang": 8, "_x": 9},
-		upstream: map[string]uint8{"alidns": 0, "googledns": 1, "cf": 2},
-		expand:   map[string][]*c04Param{},
-		expOk:    map[string]bool{},
-		atomM:    map[string]any{},
-		stats:    stats,
-		bulk:     map[c04Atom]c04BulkRef{},
+		log:         log,
+		lf:          assets.NewLocationFinder([]string{geoDir}),
+		traffic:     map[string]uint8{"direct": uint8(consts.OutboundDirect), "block": uint8(consts.OutboundBlock), "proxy": 2, "other": 3, "us_proxy": 4, "my_group": 5, "tunnel": 6, "sg": 7, "mustang": 8, "_x": 9},
+		upstream:    map[string]uint8{"alidns": 0, "googledns": 1, "cf": 2},
+		expand:      map[string][]*c04Param{},
+		expOk:       map[string]bool{},
+		atomM:       map[string]any{},
+		stats:       stats,
+		bulk:        map[c04Atom]c04BulkRef{},
+		sharedFirst: map[string]string{},
 	}
 
 	// the production call sites: optimizer lists (the harness runs the stages in THAT order), options,
@@ -2031,6 +2123,43 @@ func TestVerifC04(t *testing.T) {
 				stats.Sample(kind + ": " + strings.Join(c04Text(rules), " ; "))
 			}
 		}
+	}
+	// Fault history of ONE long-lived optimizer (the shared instance of the stream above, its cache full by now):
+	//  1. ext:'late:one' while late.dat does not exist            -> error, and the error must not be remembered
+	//  2. the file appears                                          -> the same rule list now loads
+	//  3. the file disappears again                                 -> a fresh optimizer fails, the long-lived one
+	//                                                                  still serves its entry (exactly what `datOptC` predicts)
+	{
+		prog := func() []*c04Rule {
+			return c04Parse(t, "domain(ext:'late:one', suffix: zzz.net) -> proxy\ndomain(geosite:mix) && dport(80) -> block")
+		}
+		late := filepath.Join(geoDir, "late.dat")
+		forget := func() {
+			for k := range env.expOk {
+				if strings.Contains(k, "late:") {
+					delete(env.expOk, k)
+					delete(env.expand, k)
+				}
+			}
+		}
+		pk := []*c04Packet{c04Pkt("2.2.2.2", 80, "b.com"), c04Pkt("2.2.2.2", 80, "zzz.net"), c04Pkt("2.2.2.2", 80, "a.com")}
+		env.runProgram(out, r, "traffic", "fault-history", prog(), "direct", pk, 0)
+		lateList := &geodata.GeoSiteList{Entry: []*geodata.GeoSite{{CountryCode: "ONE", Domain: []*geodata.Domain{{Type: geodata.Domain_RootDomain, Value: "b.com"}}}}}
+		b, err := proto.Marshal(lateList)
+		if err != nil {
+			t.Fatal(err)
+		}
+		if err := os.WriteFile(late, b, 0o644); err != nil {
+			t.Fatal(err)
+		}
+		c04Remember("late", lateList)
+		forget()
+		env.runProgram(out, r, "traffic", "fault-history", prog(), "direct", pk, 0)
+		os.Remove(late)
+		delete(c04SiteTruth, "late")
+		forget()
+		env.runProgram(out, r, "traffic", "fault-history", prog(), "direct", pk, 0)
+		stats.Inc("sharedcache.fault_history.runs")
 	}
 	stats.Add("ops", st.N)
 }
